@@ -21,6 +21,8 @@ import (
 	"github.com/idena-network/idena-go/blockchain/validation"
 	"github.com/idena-network/idena-go/common"
 	"github.com/idena-network/idena-go/config"
+	"github.com/idena-network/idena-go/core/state"
+	"github.com/idena-network/idena-go/crypto"
 
 	"verifharness/internal/chainfx"
 	"verifharness/internal/hx"
@@ -45,6 +47,10 @@ func c06run(c *hx.Ctx, cs c06case) error {
 	// three key holders that own nothing at genesis play the dust accounts: funded, emptied below the dust limit (their
 	// account, nonce included, is removed at the next dust clearing), funded again; snapshot blocks every 12 blocks
 	w.AddFresh(3)
+	// four more key holders play invitation accounts: invited (with coins), they send a transfer or activate ANOTHER address
+	// with the invitation key, the inviter terminates the invitation / the activated candidate, the key is invited again,
+	// and everything the key ever signed is re-offered after every block
+	w.AddFresh(4)
 	w.Opts.Tweak = func(cfg *config.Config) { cfg.Consensus.SnapshotRange = 12 }
 	ho := chainfx.HistoryOpts{Blocks: cs.Blocks, ShortEpochs: true, TxPerBlock: 4}
 	if cs.Failed {
@@ -116,8 +122,10 @@ func c06run(c *hx.Ctx, cs c06case) error {
 		}
 		return "rej"
 	}
-	firstFresh := len(w.Keys) - 3
-	dustPhase := make([]int, 3)   // 0 to be funded, 1 funded: empty it, 2 emptied: wait for a clearing, 3 fund again, 4 done
+	firstFresh := len(w.Keys) - 7
+	invT, invR, invT2, invX := len(w.Keys)-4, len(w.Keys)-3, len(w.Keys)-2, len(w.Keys)-1
+	invStep, invStep2 := 0, 0
+	dustPhase := make([]int, 3) // 0 to be funded, 1 funded: empty it, 2 emptied: wait for a clearing, 3 fund again, 4 done
 	dustWait := make([]int, 3)
 	var dustTxs []c06tx
 	for b := 1; b <= cs.Blocks; b++ {
@@ -168,6 +176,82 @@ func c06run(c *hx.Ctx, cs c06case) error {
 		for i := range w.Keys {
 			hadRecord[i] = n.App.State.GetNonce(w.Addrs[i]) != 0 || n.App.State.GetEpoch(w.Addrs[i]) != 0
 		}
+		if os.Getenv("C06_DEBUG") != "" {
+			fmt.Fprintf(os.Stderr, "b=%d period=%d godpending=%d\n", b, n.App.State.ValidationPeriod(), len(n.Pool.GetPendingByAddress(w.Addrs[0])))
+		}
+		if n.App.State.ValidationPeriod() == 0 && b > 6 && len(n.Pool.GetPendingByAddress(w.Addrs[0])) == 0 {
+			st := n.App.State
+			idle := func(i int) bool { return len(n.Pool.GetPendingByAddress(w.Addrs[i])) == 0 }
+			godInvite := func(i int) bool {
+				if st.GodAddressInvites() == 0 || st.GetIdentityState(w.Addrs[i]) != state.Undefined {
+					c.Hit(fmt.Sprintf("invitation:not-possible:god-invites=%d,state=%d", st.GodAddressInvites(), st.GetIdentityState(w.Addrs[i])))
+					return false
+				}
+				to := w.Addrs[i]
+				_, err := h.S.Send(n, 0, &types.Transaction{Type: types.InviteTx, To: &to, Amount: chainfx.Dna(60)})
+				if err != nil {
+					c.Hit("invitation:invite-refused:" + err.Error())
+				}
+				return err == nil
+			}
+			godKill := func(i int) bool {
+				to := w.Addrs[i]
+				_, err := h.S.Send(n, 0, &types.Transaction{Type: types.KillInviteeTx, To: &to})
+				return err == nil
+			}
+			// flow 1: T is invited, activates R with the invitation key, the inviter terminates R, T is invited again
+			switch invStep {
+			case 0:
+				if godInvite(invT) {
+					invStep = 1
+				}
+			case 1:
+				if st.GetIdentityState(w.Addrs[invT]) == state.Invite && idle(invT) {
+					to := w.Addrs[invR]
+					if _, err := h.S.Send(n, invT, &types.Transaction{Type: types.ActivationTx, To: &to, MaxFee: chainfx.Dna(10), Payload: crypto.FromECDSAPub(&w.Keys[invR].PublicKey)}); err == nil {
+						invStep = 2
+						c.Hit("invitation:activation-of-another-address-sent")
+					} else {
+						c.Hit("invitation:activation-refused:" + err.Error())
+					}
+				}
+			case 2:
+				if st.GetIdentityState(w.Addrs[invR]) == state.Candidate && godKill(invR) {
+					invStep = 3
+				}
+			case 3:
+				if st.GetIdentityState(w.Addrs[invR]) != state.Candidate && godInvite(invT) {
+					invStep = 4
+					c.Hit("invitation:key-invited-again-after-activation")
+				}
+			}
+			// flow 2: T2 is invited with coins, sends a transfer, the unactivated invitation is terminated, T2 is invited again
+			switch invStep2 {
+			case 0:
+				if invStep >= 1 && godInvite(invT2) {
+					invStep2 = 1
+				}
+			case 1:
+				if st.GetIdentityState(w.Addrs[invT2]) == state.Invite && idle(invT2) {
+					to := w.Addrs[invX]
+					if _, err := h.S.Send(n, invT2, &types.Transaction{Type: types.SendTx, To: &to, Amount: chainfx.Dna(3), MaxFee: chainfx.Dna(20)}); err == nil {
+						invStep2 = 2
+						c.Hit("invitation:transfer-from-invitation-key-sent")
+					} else {
+						c.Hit("invitation:transfer-refused:" + err.Error())
+					}
+				}
+			case 2:
+				if st.GetNonce(w.Addrs[invT2]) > 0 && st.GetIdentityState(w.Addrs[invT2]) == state.Invite && godKill(invT2) {
+					invStep2 = 3
+				}
+			case 3:
+				if st.GetIdentityState(w.Addrs[invT2]) != state.Invite && godInvite(invT2) {
+					invStep2 = 4
+					c.Hit("invitation:key-invited-again-after-termination")
+				}
+			}
+		}
 		blk, err := h.Step(b)
 		if err == chainfx.ErrNotEligible {
 			c.Hit("history-ended:proposer-not-eligible")
@@ -180,6 +264,13 @@ func c06run(c *hx.Ctx, cs c06case) error {
 		for _, tx := range blk.Body.Transactions {
 			si := senderIdx(tx)
 			c.Line(fmt.Sprintf("tx %d %d %d", si, tx.Epoch, tx.AccountNonce), "ok")
+			if os.Getenv("C06_DEBUG") != "" {
+				ti := -1
+				if tx.To != nil {
+					ti = w.Index(*tx.To)
+				}
+				fmt.Fprintf(os.Stderr, "block %d: tx sender %d type %d to %d nonce %d\n", b, si, tx.Type, ti, tx.AccountNonce)
+			}
 			c.Hit("included:" + fmt.Sprint(tx.Type))
 			if prev, dup := seenHash[tx.Hash()]; dup {
 				fail("C06:tx-included-twice", fmt.Sprintf("tx %s in canonical blocks %d and %d", tx.Hash().Hex(), prev, len(blockTxCount)))
